@@ -12,7 +12,7 @@
     theorem holds for all of them. *)
 From Coq Require Import ZArith QArith List Bool String Permutation Sorted.
 From Verif Require Import Base Cal Tables Period Builder BuilderSpec BuilderProofs BuilderGroupProofs
-  BuilderValueProofs.
+  BuilderValueProofs BuilderRejectProofs.
 Import ListNotations.
 Open Scope Z_scope.
 Open Scope string_scope.
@@ -112,30 +112,30 @@ Qed.
 
 (** * 3. Ill-formed descriptions are refused with the situation error *)
 
-(** full statement: an entity-shaped document with an ill-formed item (any class of the
-    property text, at any place) never builds; the error is the situation error unless
-    something read earlier is outside the modelled language ([EUnmodelled]). *)
-Definition ill_formed_rejected_statement : Prop :=
-  forall x s doc, wf_sys s ->
-    (forall l, Permutation (set_order x l) l) ->
-    ill_formed x s doc ->
-    build_from_entities x s doc = Err ESituation \/ build_from_entities x s doc = Err EUnmodelled.
-(* Proved below: the class "unknown entity" in full ([unknown_entity_rejected]); for the other
-   classes the rejection of the FIRST ill-formed item that the builder meets, at document level,
-   i.e. under the hypothesis that what was read before it was accepted:
-   [person_declaration_rejected] (with [unknown_variable_refused], [other_entity_variable_refused],
-   [refused_entry_in_field] + [unparsable_period_refused] / [bad_value_refused] +
-   [text_for_number_value] / [unknown_enum_value] / [impossible_date_value]) for the declarations
-   of persons; [group_declaration_rejected] (with [unknown_person_rejected],
-   [duplicate_membership_rejected], [too_many_role_holders_rejected]) for the role lists of
-   groups; [mismatched_period_rejected] for the flush.
-   Missing for [ill_formed_rejected_statement]: the induction over the position of the item
-   showing that whatever is read before it either is accepted or already fails with
-   ESituation / EUnmodelled (this needs the invariant that buffered arrays have the length of
-   their entity, to exclude the model's IndexError case), the lemmas of
-   [person_declaration_rejected] threaded through [add_group_instances] for the variables
-   declared inside groups, and [mismatched_period_rejected] threaded through the flush of the
-   populations before the one that holds the variable. *)
+(** An entity-shaped document with an ill-formed item of ANY class of the property text
+    ([ill_formed], model/BuilderSpec.v: unknown entity; unknown variable or variable of another
+    entity; value that [check_set_value] cannot read as the variable's type - text for a number,
+    unknown enum name, impossible date; unparsable period; period that does not match the
+    definition period or the eternity for a dated variable; unknown person in a group; a person
+    declared twice in a group kind; too many holders of a role), at ANY place of the document,
+    with or without axes, never builds a simulation. *)
+Theorem ill_formed_rejected : forall x s doc,
+  wf_sys s -> e_roles (s_person s) = [] -> ill_formed x s doc ->
+  forall sim, build_from_entities x s doc <> Ok sim.
+Proof. exact ill_formed_never_builds. Qed.
+Print Assumptions ill_formed_rejected.
+
+(** ... and the error is the situation error: in full for the class "unknown entity"
+    ([unknown_entity_rejected]); for the other classes when the item is the first ill-formed one
+    that the builder meets, i.e. what was read before it was accepted
+    ([person_declaration_rejected] with [unknown_variable_refused], [other_entity_variable_refused],
+    [refused_entry_in_field] + [unparsable_period_refused] / [bad_value_refused] +
+    [text_for_number_value] / [unknown_enum_value] / [impossible_date_value] for the declarations
+    of persons; [group_declaration_rejected] with [unknown_person_rejected],
+    [duplicate_membership_rejected], [too_many_role_holders_rejected] for the role lists of groups;
+    [mismatched_period_rejected] for the flush).  When something read earlier fails first, the
+    error is that earlier item's: again the situation error if it is ill-formed in the sense
+    above, [EUnmodelled] if it is outside the modelled language. *)
 
 Theorem unknown_entity_rejected : forall x s doc k,
   In k (map fst doc) -> k <> "axes" -> ~ In k (plurals s) -> ~ In k (singulars s) ->
@@ -625,4 +625,25 @@ Proof.
   split; [eexists; vm_compute; reflexivity|].
   split; [reflexivity|]. split; [reflexivity|].
   eexists. repeat split; reflexivity.
+Qed.
+
+Example ill_formed_rejected_nonvacuous :
+  wf_sys sys0 /\ e_roles (s_person sys0) = [] /\
+  ill_formed ext0 sys0 [("persons", persons0);
+                        ("households", JObj [("h", JObj [("parents", JArr [JStr "a"; JStr "b"; JStr "c"])])])]
+  /\ ill_formed ext0 sys0 [("persons", JObj [("a", JObj [("birth", JObj [("2018", JStr "1980-02-30")])])])].
+Proof.
+  split; [|split; [reflexivity|split]].
+  - split; [repeat constructor; cbn; intuition discriminate|].
+    split; [repeat constructor; cbn; intuition discriminate|].
+    split; [cbn; intuition discriminate|].
+    intros v [<-|[<-|[<-|[]]]]; cbn; auto.
+  - eapply IF_too_many with (e := mkEntity "household" "households"
+                                   [mkRole "parent" (Some "parents") (Some 2) []; mkRole "child" (Some "children") None []])
+                            (gid := "h") (r := mkRole "parent" (Some "parents") (Some 2) []) (mx := 2);
+      [left; reflexivity|reflexivity|left; reflexivity|left; reflexivity|reflexivity|vm_compute; reflexivity].
+  - eapply IF_bad_value with (e := s_person sys0) (id := "a") (vn := "birth") (t := "2018")
+                             (value := JStr "1980-02-30");
+      [left; reflexivity|reflexivity| |intros []|reflexivity|discriminate|reflexivity].
+    eexists _, _. split; [left; reflexivity|]. split; [left; reflexivity|left; reflexivity].
 Qed.
